@@ -201,6 +201,7 @@ def runE (inp : Input) : Except Outcome Result := do
 def run (inp : Input) : Outcome :=
   match runE inp with
   | .ok r => .ok r
+  | .error (.ok _) => .panic "unreachable" []   -- `runE` never throws `ok`
   | .error o => o
 
 end Moyo.StageStd
